@@ -168,6 +168,25 @@ CHECKS = {
         tech="explicit-state BFS + crash-point enumeration + preemption-bounded schedule enumeration on the real code",
         sec="C15",
     ),
+    "C18": dict(
+        cat="model_checking",
+        text="Precedence: every option x every subset of its sources and every option pair x source pair, each run re-importing the script module over freshly written configuration "
+        "files and comparing merge_config's mapping with the precedence model. Persistence: explicit-state BFS over histories of ofxget runs (2 nicknames x 14 option sets x write / "
+        "dry-run write, plain) with the text of ofxget.cfg as state; after each writing run a fresh run must see the same effective values, the other nickname, password, dry-run and "
+        "default-CLIENTUID invariants are checked on every transition.",
+        note="The FI database is a synthetic fi.cfg (ofxtools.config.CONFIGDIR redirected before the script module loads); keyring paths not installed; depth 2 (thorough 3).",
+        tech="exhaustive source-subset enumeration + explicit-state BFS over run histories against a precedence/persistence model",
+        sec="C18",
+    ),
+    "C19": dict(
+        cat="exploration",
+        text="`ofxget stmt|stmtend --dryrun` for every assignment of 0-2 account ids to the 6 (5) account types, every date option x notation, every flag subset; and `--all` against "
+        "the scripted server for every account sequence up to length 2 (thorough 3) over 6 types x 3 service statuses; the request printed / received is read by the reference reader "
+        "and must contain exactly the expected statement requests.",
+        note="--all runs use --skipprofile and no configured accounts; one bank id / broker id.",
+        tech="bounded exhaustive enumeration of command lines and server responses against a reference model of the expected request",
+        sec="C19",
+    ),
 }
 
 NA_REASON = "check not built yet in this revision of /verif (planned: see DESIGN.md section 3); nothing is claimed for it"
